@@ -46,14 +46,31 @@ type world struct {
 	overlay *overlaydb.OverlayDB
 	height  uint32
 	sh      *shadow
+	cur     *snapshot // canonical state after the last op (nil: not computed)
 }
 
-func newWorld() *world {
-	store, err := leveldbstore.NewMemLevelDBStore()
-	if err != nil {
-		panic(err)
+// now returns the current canonical state (cached between ops).
+func (w *world) now() *snapshot {
+	if w.cur == nil {
+		w.cur = w.snap()
 	}
-	return &world{overlay: overlaydb.NewOverlayDB(store), height: 1, sh: newShadow()}
+	return w.cur
+}
+
+// One in-memory LevelDB and overlay serve all cases: nothing is ever flushed to the LevelDB (the harness never calls
+// CommitTo), so resetting the overlay's write set gives a fresh, empty state.
+var sharedOverlay *overlaydb.OverlayDB
+
+func newWorld() *world {
+	if sharedOverlay == nil {
+		store, err := leveldbstore.NewMemLevelDBStore()
+		if err != nil {
+			panic(err)
+		}
+		sharedOverlay = overlaydb.NewOverlayDB(store)
+	}
+	sharedOverlay.Reset()
+	return &world{overlay: sharedOverlay, height: 1, sh: newShadow()}
 }
 
 // deterministic P-256 key from a 64-bit seed: (compressed public key bytes, address)
@@ -67,12 +84,23 @@ func mkKey(seed uint64) ([]byte, common.Address) {
 	return keypair.SerializePublicKey(pk), types.AddressFromPubKey(pk)
 }
 
+var addrCache = map[string]*common.Address{}
+
 func addrOfPkBytes(b []byte) (common.Address, bool) {
+	if a, ok := addrCache[string(b)]; ok {
+		if a == nil {
+			return common.Address{}, false
+		}
+		return *a, true
+	}
 	pk, err := keypair.DeserializePublicKey(b)
 	if err != nil {
+		addrCache[string(b)] = nil
 		return common.Address{}, false
 	}
-	return types.AddressFromPubKey(pk), true
+	a := types.AddressFromPubKey(pk)
+	addrCache[string(b)] = &a
+	return a, true
 }
 
 func parseAddr(s string) (common.Address, bool) {
